@@ -73,23 +73,30 @@ def fmtFixed (x : Rat) (p : Nat) : Txt := renderShown (shown x p)
 def leftLen (x : Rat) : Nat :=
   (if isNeg x then 1 else 0) + (natDigits (x.num.natAbs / x.den)).length
 
-/-- reads `-?digits(.digits)?`; returns the literal and the rest -/
-def parseNum (t : Txt) : Option (Shown × Txt) :=
-  let (neg, t1) := match t with
-    | 45 :: r => (true, r)
-    | _ => (false, t)
-  let (ip, t2) := spanDigits t1
-  if ip.isEmpty then none else
-  match t2 with
+/-- reads `digits(.digits)?` -/
+def parseUnsigned (neg : Bool) (t1 : Txt) : Option (Shown × Txt) :=
+  let sp := spanDigits t1
+  if sp.1.isEmpty then none else
+  match sp.2 with
   | 46 :: r =>
-    let (fp, t3) := spanDigits r
-    some (⟨neg, natVal (ip ++ fp), fp.length⟩, t3)
-  | _ => some (⟨neg, natVal ip, 0⟩, t2)
+    let fp := spanDigits r
+    some (⟨neg, natVal (sp.1 ++ fp.1), fp.1.length⟩, fp.2)
+  | t2 => some (⟨neg, natVal sp.1, 0⟩, t2)
+
+/-- reads `-?digits(.digits)?`; returns the literal and the rest -/
+def parseNum : Txt → Option (Shown × Txt)
+  | 45 :: r => parseUnsigned true r
+  | t => parseUnsigned false t
 
 /-- reads a natural number (at least one digit) -/
 def parseNatPre (t : Txt) : Option (Nat × Txt) :=
   let (ip, r) := spanDigits t
   if ip.isEmpty then none else some (natVal ip, r)
+
+/-- longest prefix satisfying `p`, and the rest (`List.span`, structurally) -/
+def spanP {α : Type} (p : α → Bool) : List α → List α × List α
+  | [] => ([], [])
+  | c :: cs => if p c then ((c :: (spanP p cs).1), (spanP p cs).2) else ([], c :: cs)
 
 def expect (c : Nat) : Txt → Option Txt
   | d :: r => if d = c then some r else none
